@@ -1,6 +1,17 @@
 import SpVerif.Model.HilbertDist
+import SpVerif.Props.C07
+/-!
+# C08 — a geometry's Hilbert distance is the curve position of its bbox centre
+
+Theorems about the exact-arithmetic reference `HilbertDist` (`hilbert_distance` → `_distances_from_bounds` → `_data2coord`):
+the value lies in `[0, 4^p)` whatever the inputs; in a non-degenerate extent the cell is the one that contains the centre of
+the bounding box, the upper edge belongs to the last cell, centres outside are clamped to the border cells; a degenerate
+extent is widened; the value is a function of the element's own box and `(total_bounds, p)` only.
+The float computation agrees with this reference where its arithmetic is exact (DESIGN §2) — compared on every run.
+-/
 namespace SpVerif
-open HilbertDist
+open HilbertDist Hilbert
+
 /-- `_data2coord` always lands on the grid, whatever the value and the extent (the clip) -/
 theorem C08_coord_in_grid (v2 lo width n : Int) (hn : 0 < n) :
     0 ≤ data2coord v2 lo width n ∧ data2coord v2 lo width n ≤ n - 1 := by
@@ -9,4 +20,85 @@ theorem C08_coord_in_grid (v2 lo width n : Int) (hn : 0 < n) :
   split
   · omega
   · split <;> omega
+
+/-- **range**: the Hilbert distance lies in `[0, 4^p)` for every element, extent and order -/
+theorem C08_range (total box : Int × Int × Int × Int) (p : Nat) : hilbertDistance total p box < 4 ^ p :=
+  (C07_range p).2 _
+
+/-- a zero-width (or zero-height) extent is widened so that the scaling is defined -/
+theorem C08_degenerate_extent (lo hi : Int) : (widen lo hi).1 < (widen lo hi).2 ∨ hi < lo := by
+  unfold widen
+  split
+  · left; simp; omega
+  · simp; omega
+
+theorem tdiv_nonpos {a b : Int} (ha : a ≤ 0) (hb : 0 < b) : Int.tdiv a b ≤ 0 := by
+  have h : Int.tdiv a b = - Int.tdiv (-a) b := by rw [Int.neg_tdiv]; omega
+  rw [h, Int.tdiv_eq_ediv_of_nonneg (by omega)]
+  have := Int.ediv_nonneg (show 0 ≤ -a by omega) (show 0 ≤ b by omega)
+  omega
+
+/-- **reference cell**: for an extent of positive width `w` and a centre `c` (given doubled, `v2 = 2c`) inside `[lo, lo + w)`,
+the cell index `k` satisfies `lo + k·w/n ≤ c < lo + (k+1)·w/n` — the cell contains the centre -/
+theorem C08_reference_cell (v2 lo w n : Int) (hw : 0 < w) (hn : 0 < n) (h0 : 2 * lo ≤ v2) (h1 : v2 < 2 * (lo + w)) :
+    let k := data2coord v2 lo w n
+    k * (2 * w) ≤ (v2 - 2 * lo) * n ∧ (v2 - 2 * lo) * n < (k + 1) * (2 * w) := by
+  have hx : 0 ≤ (v2 - 2 * lo) * n := Int.mul_nonneg (by omega) (by omega)
+  have hlt : (v2 - 2 * lo) * n < (2 * w) * n := Int.mul_lt_mul_of_pos_right (by omega) hn
+  have hq := Int.tdiv_eq_ediv_of_nonneg (b := 2 * w) hx
+  have hd := Int.mul_ediv_add_emod ((v2 - 2 * lo) * n) (2 * w)
+  have hm := Int.emod_nonneg ((v2 - 2 * lo) * n) (show (2 * w) ≠ 0 by omega)
+  have hm2 := Int.emod_lt_of_pos ((v2 - 2 * lo) * n) (show 0 < 2 * w by omega)
+  have hk0 : 0 ≤ (v2 - 2 * lo) * n / (2 * w) := Int.ediv_nonneg hx (by omega)
+  have hkn : (v2 - 2 * lo) * n / (2 * w) < n := by
+    apply Int.ediv_lt_of_lt_mul (by omega)
+    rw [Int.mul_comm n]; exact hlt
+  simp only [data2coord, hq]
+  have c1 : ¬ (v2 - 2 * lo) * n / (2 * w) < 0 := by omega
+  have c2 : ¬ (v2 - 2 * lo) * n / (2 * w) > n - 1 := by omega
+  simp only [c1, c2, if_false]
+  generalize (v2 - 2 * lo) * n / (2 * w) = k at *
+  generalize (v2 - 2 * lo) * n % (2 * w) = r at *
+  generalize (v2 - 2 * lo) * n = x at *
+  constructor
+  · have : k * (2 * w) = 2 * w * k := Int.mul_comm _ _
+    omega
+  · have : (k + 1) * (2 * w) = 2 * w * k + 2 * w := by rw [Int.add_mul, Int.mul_comm k]; omega
+    omega
+
+/-- centres on the upper edge of the extent belong to the last cell, centres beyond it too; centres at or below the lower edge
+to the first cell -/
+theorem C08_clamped (v2 lo w n : Int) (hw : 0 < w) (hn : 0 < n) :
+    (2 * (lo + w) ≤ v2 → data2coord v2 lo w n = n - 1) ∧ (v2 ≤ 2 * lo → data2coord v2 lo w n = 0) := by
+  constructor
+  · intro h
+    have hx : 0 ≤ (v2 - 2 * lo) * n := Int.mul_nonneg (by omega) (by omega)
+    have hge : (2 * w) * n ≤ (v2 - 2 * lo) * n := Int.mul_le_mul_of_nonneg_right (by omega) (by omega)
+    have hq := Int.tdiv_eq_ediv_of_nonneg (b := 2 * w) hx
+    have hkn : n ≤ (v2 - 2 * lo) * n / (2 * w) := by
+      apply Int.le_ediv_of_mul_le (by omega)
+      rw [Int.mul_comm]; exact hge
+    simp only [data2coord, hq]
+    have c1 : ¬ (v2 - 2 * lo) * n / (2 * w) < 0 := by omega
+    have c2 : (v2 - 2 * lo) * n / (2 * w) > n - 1 := by omega
+    simp [c1, c2]
+  · intro h
+    have hx : (v2 - 2 * lo) * n ≤ 0 := Int.mul_nonpos_of_nonpos_of_nonneg (by omega) (by omega)
+    have := tdiv_nonpos hx (show 0 < 2 * w by omega)
+    simp only [data2coord]
+    split
+    · rfl
+    · split
+      · omega
+      · omega
+
+/-- the value depends only on the element's own bounding box and on `(total_bounds, p)`: the array form is the element-wise map -/
+theorem C08_elementwise (total : Int × Int × Int × Int) (p : Nat) (boxes : List (Int × Int × Int × Int)) (i : Nat) (h : i < boxes.length) :
+    (boxes.map (hilbertDistance total p))[i]'(by simpa using h) = hilbertDistance total p boxes[i] := by
+  simp
+
+/-! non-vacuity: a 4 x 4 grid on the extent [0,4]²: the centre (2,2) lies in cell (2,2), the corner (4,4) in the last cell -/
+example : cellOf (0, 0, 4, 4) 2 (1, 1, 3, 3) = (2, 2) ∧ cellOf (0, 0, 4, 4) 2 (4, 4, 4, 4) = (3, 3) ∧
+    hilbertDistance (0, 0, 4, 4) 2 (1, 1, 3, 3) = 8 := by decide
+
 end SpVerif
